@@ -17,10 +17,11 @@ STRS = [
     "none", "null", "path", "\\path", "100%", "%d", "%s%s", "%(a)s", "<b>&\"'`", "é",
     "a/b", "a.b", "b", "c", "x", "y", "3", "+5", "1_0", "3.0",
     "inf", "-Infinity", "1e999", "nan", "{x}", "a}", "${HOME}", "{{ user }}", "{0}",
+    "yes", "no", "on", "off", "010", "1:30", "~",
 ]
 KEYS_STR = ["a", "b", "c", "x", "y", "", "0", "1", "A", "key", "path", "a.b", "value", "keys", "paths", "{x}", "a}", "${HOME}", "%(k)s"]
 KEYS_OTHER = [0, 1, 2, True, False, 2.5, None, -1, 1.5, 10, -0.0, 1e300, 2**40]
-KEYS_RARE = [" ", "a b", "line\nbreak", "tab\t", "é", "None", "True", "1.0", "-1", "a.b.c", "a/b", "k" * 60, "'q'", '"dq"', "#", "- x", "?", ":", "*", "&a"]
+KEYS_RARE = ["yes", "no", "on", "off", "y", "n", "010", "1:30", "~", "null", "0x1F", "1_000", " ", "a b", "line\nbreak", "tab\t", "é", "None", "True", "1.0", "-1", "a.b.c", "a/b", "k" * 60, "'q'", '"dq"', "#", "- x", "?", ":", "*", "&a"]
 
 
 def scalar(rng):
